@@ -95,6 +95,8 @@ THEOREMS = [
     "Lena.C12.validRangesB_iff",
     "Lena.C12.errorFieldOfB_iff",
     "Lena.C12.nonEmptyAxesB_iff",
+    "Lena.C12.add_then_scale",
+    "Lena.C12.add_then_rescale",
 ]
 TRUSTED = [
     "Lean 4.33.0 kernel; axioms limited to propext, Classical.choice, Quot.sound (audited by #print axioms on every run)",
@@ -138,6 +140,9 @@ RULE = ("cases per op over histograms of every shape 1..4 (1-dim), 1..3 x 1..3 (
         "bin_on_index (number and tuple indices, in and out of range), csv_text (the complete CSV text incl. header, "
         "separator, row_end, last_row_end and '{:f}' rounding of arbitrary floats, ties k/128, bins that are lists, data "
         "without rows()), csv_flow and h2g_flow (two or three values through ONE ToCSV / HistToGraph element), h2g_el "
+        "chain (multi-step sequences on two histograms with equal edges: scale()/scale(s)/set_nevents/get_nevents/add "
+        "with weights 1, 2, -1, 1/2 in random order, operands with computed, user-set/stale, zero or missing stored "
+        "scale, incl. histograms with events but zero integral; every step observed, final states compared), h2g_el "
         "(the HistToGraph element: make_value None / Variable / not a Variable, context.histogram.to_graph, "
         "non-histograms), GroupScale on a non-sequence, graph + non-graph. Enumerated first: every shape x every "
         "histogram operation, every valid naming, the prefix/extension edges of add; then a seeded random mixture of all "
